@@ -14,6 +14,7 @@ import (
 	"strings"
 	"testing"
 	"time"
+	"unicode"
 
 	"verif/sim/core"
 )
@@ -169,7 +170,7 @@ func normalise(s string) string {
 			}
 			continue
 		}
-		if r == ' ' || r == '\t' || r == '\n' || r == '\r' {
+		if r == ' ' || r == '\t' || r == '\n' || r == '\r' || unicode.IsSpace(r) {
 			space = true
 			continue
 		}
@@ -443,6 +444,19 @@ func genC20(seed uint64, thorough bool) *c20Case {
 		// a pasted statement is one paste; statements sharing a line would put an Enter-less paste before another
 		for i := range c.After {
 			c.After[i] = "\r"
+			// pasted text often carries white space after the semicolon: blanks, a
+			// tab, the line feed of the copied line
+			if r.Chance(0.15) {
+				c.After[i] = []string{"\t", "\n", " \t ", "  ", "\u00a0", "\t\n"}[r.Intn(6)] + "\r"
+			}
+		}
+	}
+	if c.Mode != "paste" {
+		// typed white space after the semicolon other than a blank
+		for i := range c.After {
+			if strings.HasSuffix(c.After[i], "\r") && r.Chance(0.05) {
+				c.After[i] = []string{"\u00a0", "\t", "\u2003", " \u00a0 "}[r.Intn(4)] + "\r"
+			}
 		}
 	}
 	if c.Mode != "paste" && r.Chance(0.2) {
